@@ -13,14 +13,23 @@ namespace Coupe.Hilbert
 
 /-! ## Table facts -/
 
-/-- Decidable adjacency test: sub-cube `q` (curve leaves it at the corner with the
-bits of `xq`) and sub-cube `q'` (curve enters it at the corner with the bits of `eq'`)
-touch along exactly one axis, and the two corners face each other. -/
+/-- Along one axis: same sub-cube bit and same corner bit (no movement). -/
+def sameB (qa xa qb eb : Nat) : Bool := qa == qb && xa == eb
+
+/-- Along one axis: neighbouring sub-cubes and the corners face each other (unit step). -/
+def stepB (qa xa qb eb : Nat) : Bool :=
+  (qb == qa + 1 && xa == 1 && eb == 0) || (qa == qb + 1 && xa == 0 && eb == 1)
+
+/-- Decidable adjacency test: sub-cube `q` (the curve leaves it at the corner with the
+bits of `xq`) and sub-cube `q'` (the curve enters it at the corner with the bits of
+`eq'`) touch along exactly one axis, and the two corners face each other. -/
 def adjB (m : Mach) (q xq q' eq' : Nat) : Bool :=
-  let s (f : Nat → Nat) : Bool := f q == f q' && f xq == f eq'
-  let t (f : Nat → Nat) : Bool :=
-    (f q' == f q + 1 && f xq == 1 && f eq' == 0) || (f q == f q' + 1 && f xq == 0 && f eq' == 1)
-  (t m.b0 && s m.b1 && s m.b2) || (s m.b0 && t m.b1 && s m.b2) || (s m.b0 && s m.b1 && t m.b2)
+  (stepB (m.b0 q) (m.b0 xq) (m.b0 q') (m.b0 eq') && sameB (m.b1 q) (m.b1 xq) (m.b1 q') (m.b1 eq')
+      && sameB (m.b2 q) (m.b2 xq) (m.b2 q') (m.b2 eq')) ||
+  (sameB (m.b0 q) (m.b0 xq) (m.b0 q') (m.b0 eq') && stepB (m.b1 q) (m.b1 xq) (m.b1 q') (m.b1 eq')
+      && sameB (m.b2 q) (m.b2 xq) (m.b2 q') (m.b2 eq')) ||
+  (sameB (m.b0 q) (m.b0 xq) (m.b0 q') (m.b0 eq') && sameB (m.b1 q) (m.b1 xq) (m.b1 q') (m.b1 eq')
+      && stepB (m.b2 q) (m.b2 xq) (m.b2 q') (m.b2 eq'))
 
 /-- The facts about the tables the theory needs; all of them are bounded
 quantifications over states and digits, decided by the kernel on the extracted
@@ -156,5 +165,153 @@ theorem digits_ofDigits {R : Nat} : ∀ ds : List Nat, (∀ d ∈ ds, d < R) →
         Nat.mod_eq_of_lt hd]
     · rw [← digits_mod ds.length ds.length _ (Nat.le_refl _), Nat.add_comm, Nat.add_mul_mod_self_right,
         Nat.mod_eq_of_lt hlt, ih]
+
+/-! ## Cells, decoder, continuity -/
+
+theorem cellOf_lt {m : Mach} (hv : Valid m) : ∀ ds : List Nat, (∀ d ∈ ds, d < m.R) →
+    (cellOf m ds).1 < 2 ^ ds.length ∧ (cellOf m ds).2.1 < 2 ^ ds.length ∧
+      (cellOf m ds).2.2 < 2 ^ ds.length
+  | [], _ => by simp [cellOf]
+  | q :: qs, h => by
+    have hb := hv.bit_le q (h q (by simp))
+    have ih := cellOf_lt hv qs (fun x hx => h x (by simp [hx]))
+    have h0 := Nat.mul_le_mul_right (2 ^ qs.length) hb.1
+    have h1 := Nat.mul_le_mul_right (2 ^ qs.length) hb.2.1
+    have h2 := Nat.mul_le_mul_right (2 ^ qs.length) hb.2.2
+    simp only [cellOf, List.length_cons, Nat.pow_succ]
+    omega
+
+theorem dec_succ (m : Mach) (c k h : Nat) :
+    dec m c (k + 1) h =
+      (m.b0 (inv m c (h / m.R ^ k % m.R)) * 2 ^ k + (dec m (m.conf c (inv m c (h / m.R ^ k % m.R))) k h).1,
+       m.b1 (inv m c (h / m.R ^ k % m.R)) * 2 ^ k + (dec m (m.conf c (inv m c (h / m.R ^ k % m.R))) k h).2.1,
+       m.b2 (inv m c (h / m.R ^ k % m.R)) * 2 ^ k + (dec m (m.conf c (inv m c (h / m.R ^ k % m.R))) k h).2.2) := by
+  simp [dec, digits, unrun, cellOf, unrun_length, digits_length]
+
+theorem dec_mod (m : Mach) (c k h : Nat) : dec m c k (h % m.R ^ k) = dec m c k h := by
+  simp [dec, digits_mod k k h (Nat.le_refl _)]
+
+/-- The corner of the `2^k` grid with the coordinate bits of digit `q` (`M = 2^k - 1`). -/
+def corner (m : Mach) (q M : Nat) : Nat × Nat × Nat := (m.b0 q * M, m.b1 q * M, m.b2 q * M)
+
+theorem bit_corner {b P : Nat} (hb : b ≤ 1) (hP : 1 ≤ P) : b * P + b * (P - 1) = b * (P * 2 - 1) := by
+  have : b = 0 ∨ b = 1 := by omega
+  rcases this with rfl | rfl
+  · simp
+  · omega
+
+theorem div_mul_add {P a b : Nat} (hb : b < P) : (P * a + b) / P = a := by
+  rw [Nat.mul_add_div (by omega), Nat.div_eq_of_lt hb, Nat.add_zero]
+
+theorem mod_mul_add {P a b : Nat} (hb : b < P) : (P * a + b) % P = b := by
+  rw [Nat.mul_add_mod, Nat.mod_eq_of_lt hb]
+
+theorem mul_sub_one_split {P R : Nat} (hP : 0 < P) (hR : 0 < R) :
+    P * R - 1 = P * (R - 1) + (P - 1) := by
+  obtain ⟨r, rfl⟩ : ∃ r, R = r + 1 := ⟨R - 1, by omega⟩
+  rw [Nat.mul_succ]
+  simp only [Nat.add_sub_cancel]
+  omega
+
+/-- The curve of state `c` starts in the corner named by its first sub-cube. -/
+theorem dec_zero {m : Mach} (hv : Valid m) : ∀ k c, c < m.S →
+    dec m c k 0 = corner m (inv m c 0) (2 ^ k - 1)
+  | 0, c, _ => by simp [dec, digits, unrun, cellOf, corner]
+  | k + 1, c, hc => by
+    have he := hv.inv_lt c hc 0 hv.R_pos
+    have hb := hv.bit_le _ he
+    have hP : 1 ≤ 2 ^ k := Nat.one_le_two_pow
+    rw [dec_succ]
+    simp only [Nat.zero_div, Nat.zero_mod]
+    rw [dec_zero hv k _ (hv.conf_lt c hc _ he), hv.ent_fix c hc]
+    simp only [corner, Nat.pow_succ, bit_corner hb.1 hP, bit_corner hb.2.1 hP, bit_corner hb.2.2 hP]
+
+/-- … and ends in the corner named by its last sub-cube. -/
+theorem dec_last {m : Mach} (hv : Valid m) : ∀ k c, c < m.S →
+    dec m c k (m.R ^ k - 1) = corner m (inv m c (m.R - 1)) (2 ^ k - 1)
+  | 0, c, _ => by simp [dec, digits, unrun, cellOf, corner]
+  | k + 1, c, hc => by
+    have hR := hv.R_pos
+    have he := hv.inv_lt c hc (m.R - 1) (by omega)
+    have hb := hv.bit_le _ he
+    have hP : 1 ≤ 2 ^ k := Nat.one_le_two_pow
+    have hRk : 0 < m.R ^ k := Nat.pow_pos hR
+    have hsplit : m.R ^ (k + 1) - 1 = m.R ^ k * (m.R - 1) + (m.R ^ k - 1) := by
+      rw [Nat.pow_succ]; exact mul_sub_one_split hRk hR
+    rw [dec_succ, hsplit, div_mul_add (by omega), Nat.mod_eq_of_lt (by omega : m.R - 1 < m.R),
+      ← dec_mod m _ k, mod_mul_add (by omega), dec_last hv k _ (hv.conf_lt c hc _ he), hv.ext_fix c hc]
+    simp only [corner, Nat.pow_succ, bit_corner hb.1 hP, bit_corner hb.2.1 hP, bit_corner hb.2.2 hP]
+
+theorem dist1_self (a : Nat) : dist1 a a = 0 := by simp [dist1]
+
+theorem ax_same {qa xa qb eb : Nat} (P : Nat) (h : sameB qa xa qb eb = true) :
+    dist1 (qa * P + xa * (P - 1)) (qb * P + eb * (P - 1)) = 0 := by
+  simp only [sameB, Bool.and_eq_true, beq_iff_eq] at h
+  rw [h.1, h.2, dist1_self]
+
+theorem ax_step {qa xa qb eb P : Nat} (hP : 1 ≤ P) (ha : qa ≤ 1) (hb : qb ≤ 1)
+    (h : stepB qa xa qb eb = true) :
+    dist1 (qa * P + xa * (P - 1)) (qb * P + eb * (P - 1)) = 1 := by
+  simp only [stepB, Bool.or_eq_true, Bool.and_eq_true, beq_iff_eq] at h
+  rcases h with ⟨⟨h1, h2⟩, h3⟩ | ⟨⟨h1, h2⟩, h3⟩
+  · have : qa = 0 := by omega
+    subst this; subst h1; subst h2; subst h3
+    simp [dist1]; omega
+  · have : qb = 0 := by omega
+    subst this; subst h1; subst h2; subst h3
+    simp [dist1]; omega
+
+/-- Exit corner of one sub-cube and entry corner of the next one are neighbouring cells. -/
+theorem adj_step {m : Mach} (hv : Valid m) {q xq q' eq' P : Nat} (hP : 1 ≤ P)
+    (hq : q < m.R) (hq' : q' < m.R) (h : adjB m q xq q' eq' = true) :
+    l1 (m.b0 q * P + (corner m xq (P - 1)).1, m.b1 q * P + (corner m xq (P - 1)).2.1,
+          m.b2 q * P + (corner m xq (P - 1)).2.2)
+       (m.b0 q' * P + (corner m eq' (P - 1)).1, m.b1 q' * P + (corner m eq' (P - 1)).2.1,
+          m.b2 q' * P + (corner m eq' (P - 1)).2.2) = 1 := by
+  have hb := hv.bit_le q hq
+  have hb' := hv.bit_le q' hq'
+  simp only [adjB, Bool.or_eq_true, Bool.and_eq_true] at h
+  simp only [l1, corner]
+  rcases h with (⟨⟨h0, h1⟩, h2⟩ | ⟨⟨h0, h1⟩, h2⟩) | ⟨⟨h0, h1⟩, h2⟩
+  · rw [ax_step hP hb.1 hb'.1 h0, ax_same P h1, ax_same P h2]
+  · rw [ax_same P h0, ax_step hP hb.2.1 hb'.2.1 h1, ax_same P h2]
+  · rw [ax_same P h0, ax_same P h1, ax_step hP hb.2.2 hb'.2.2 h2]
+
+/-- Continuity of the decoder: consecutive indices are neighbouring cells (every order,
+every state). -/
+theorem dec_continuous {m : Mach} (hv : Valid m) : ∀ k c h, c < m.S → h + 1 < m.R ^ k →
+    l1 (dec m c k h) (dec m c k (h + 1)) = 1
+  | 0, _, h, _, hh => by simp at hh
+  | k + 1, c, h, hc, hh => by
+    have hR := hv.R_pos
+    have hP : 0 < m.R ^ k := Nat.pow_pos hR
+    obtain ⟨a, b, hb, rfl⟩ : ∃ a b, b < m.R ^ k ∧ h = m.R ^ k * a + b :=
+      ⟨h / m.R ^ k, h % m.R ^ k, Nat.mod_lt _ hP, (Nat.div_add_mod h _).symm⟩
+    rw [Nat.pow_succ] at hh
+    have ha : a < m.R := by
+      apply Nat.lt_of_mul_lt_mul_left (a := m.R ^ k)
+      omega
+    by_cases hb1 : b + 1 < m.R ^ k
+    · -- same sub-cube
+      have hq := hv.inv_lt c hc a ha
+      have ih := dec_continuous hv k _ b (hv.conf_lt c hc _ hq) hb1
+      rw [dec_succ, dec_succ, Nat.add_assoc, div_mul_add hb, div_mul_add hb1, Nat.mod_eq_of_lt ha,
+        ← dec_mod m _ k (m.R ^ k * a + b), ← dec_mod m _ k (m.R ^ k * a + (b + 1)),
+        mod_mul_add hb, mod_mul_add hb1]
+      simp only [l1, dist1] at ih ⊢
+      omega
+    · -- last cell of sub-cube `a`, first cell of sub-cube `a + 1`
+      have hb2 : b = m.R ^ k - 1 := by omega
+      have hnext : m.R ^ k * a + b + 1 = m.R ^ k * (a + 1) + 0 := by rw [Nat.mul_succ]; omega
+      have ha1 : a + 1 < m.R := by
+        apply Nat.lt_of_mul_lt_mul_left (a := m.R ^ k)
+        rw [Nat.mul_succ]; omega
+      have hq := hv.inv_lt c hc a ha
+      have hq' := hv.inv_lt c hc (a + 1) ha1
+      rw [hnext, dec_succ, dec_succ, div_mul_add hb, div_mul_add hP, Nat.mod_eq_of_lt ha,
+        Nat.mod_eq_of_lt ha1, ← dec_mod m _ k (m.R ^ k * a + b), ← dec_mod m _ k (m.R ^ k * (a + 1) + 0),
+        mod_mul_add hb, mod_mul_add hP, hb2, dec_last hv k _ (hv.conf_lt c hc _ hq),
+        dec_zero hv k _ (hv.conf_lt c hc _ hq')]
+      exact adj_step hv Nat.one_le_two_pow hq hq' (hv.adj c hc a (by omega))
 
 end Coupe.Hilbert
